@@ -128,6 +128,41 @@ fn c06_scalar_decode_unsigned() {
     kani::cover!(true, "BSV-END");
 }
 
+// NOTE: `char` (DW_ATE_UTF) is not decided: that arm validates the value with `char::to_string()` +
+// `String::from_utf8`, and the formatting / UTF-8 validation machinery on a symbolic char exhausts 24 GB in
+// propositional reduction even for the one-byte class (DESIGN 11.2).
+
+//@ harness: c06_scalar_decode_bool
+//@ property: C06
+//@ obligation: H-C06-a
+//@ tier: quick
+//@ encodes: ValueParser::parse_scalar (DW_ATE_boolean)
+//@ symbolic: the bool the program holds
+//@ bounds: loop-free
+//@ oracle: the bool shown is the bool the program holds
+//@ assumes: the byte is 0 or 1 (other bit patterns are undefined behaviour to read as bool; C08's subject)
+//@ timeout: 600
+#[kani::proof]
+#[kani::unwind(6)]
+fn c06_scalar_decode_bool() {
+    let bit: bool = kani::any();
+    let mut bb = [0u8; 16];
+    bb[0] = bit as u8;
+    let p = ValueParser::new();
+    let ty = mk_type(DW_ATE_boolean, 1, Some("bool"));
+    let v = p.parse_scalar(Some(mk_data1(&bb)), type_id(), &ty);
+    bsv!(matches!(v.value, Some(SupportedScalar::Bool(x)) if x == bit), "the bool shown is the bool the program holds");
+    std::mem::forget((v, ty));
+    kani::cover!(bit, "true");
+    kani::cover!(true, "BSV-END");
+}
+
+fn mk_data1(b: &[u8; 16]) -> ObjectBinaryRepr {
+    let mut v = Vec::with_capacity(1);
+    v.push(b[0]);
+    ObjectBinaryRepr { raw_data: Bytes::from(v), address: Some(0x1000), size: 1 }
+}
+
 /// short data: the type needs $size bytes, $n were fetched
 macro_rules! short_read {
     ($p:expr, $b:expr, $n:literal, $enc:expr, $size:literal) => {{
